@@ -1,6 +1,15 @@
 //! C01 — message streams survive encode/decode unchanged under any chunking.
+//!
+//! Case kinds: `enc` / `penc` / `dec` / `pdec` (framing.rs), and — proactive dimension audit aC01, see
+//! the header of c01_x.rs — `xenc` (the encoder behind another part of the `EncodeBuf` API, behind
+//! `tonic::body::Body`, built by `client::Grpc` / `server::Grpc`), `rdec` (the decoder double reading
+//! its `DecodeBuf` through another part of the `Buf` API), `xdec` (valid streams through unusual body
+//! implementations, `message()` / `trailers()` consumers and tonic's own layers), `rt` (the composition).
 use crate::common::*;
 use crate::framing::*;
+
+#[path = "c01_x.rs"]
+mod x;
 
 pub fn generate(tier: &str, rng: &mut Rng) -> Vec<String> {
     let thorough = tier == "thorough";
@@ -187,9 +196,14 @@ pub fn generate(tier: &str, rng: &mut Rng) -> Vec<String> {
             }
         }
     }
+    // ---- dimensions added by the proactive audit (c01_x.rs)
+    out.extend(x::generate(tier, rng));
     out
 }
 
 pub fn execute(case: &str) -> String {
-    crate::framing::execute(case)
+    match case.split(' ').next() {
+        Some("xenc") | Some("rdec") | Some("xdec") | Some("rt") => x::execute(case),
+        _ => crate::framing::execute(case),
+    }
 }
